@@ -11,6 +11,7 @@ import (
 	"os"
 	"path/filepath"
 	"runtime"
+	"runtime/debug"
 	"sort"
 	"sync"
 	"sync/atomic"
@@ -379,6 +380,13 @@ func runPoolProfile(profile string, thorough bool, seed int64, out string) (*Sta
 					st.Extra["reused_gets"] += r
 				}
 			}
+		}
+	case "poolcycle":
+		EnableMeasure()
+		debug.SetGCPercent(-1)
+		for i, ty := range BuiltinTypes {
+			PoolCycles(pw, ty, 1+i%4, i%3, 2+i%5, 40)
+			st.Extra["cycles"] += 40
 		}
 	case "poolforeign":
 		for _, ty := range BuiltinTypes {
